@@ -3,6 +3,7 @@ package main
 import (
 	"fmt"
 	"go/token"
+	"go/types"
 	"sort"
 	"strings"
 
@@ -200,4 +201,112 @@ func atomsForLeaf(v, leaf ssa.Value, at ssa.Instruction) []Atom {
 		return AtomsAt(at)
 	}
 	return out
+}
+
+// exactAff: the affine form of v when its upper and lower forms coincide.
+func exactAff(v ssa.Value) (Aff, bool) { return symAff(v, 0), true }
+
+// symAff: v as an affine combination of opaque symbols (no interval reasoning): +, −, ·const are decomposed,
+// len(X[a:b]) = b − a and len(X[a:]) = len(X) − a are rewritten, everything else is a symbol.
+func symAff(v ssa.Value, depth int) Aff {
+	v = stripIntConv(v)
+	if k, ok := intConst(v); ok {
+		if _, isConv := v.(*ssa.Convert); !isConv {
+			return affConst(k)
+		}
+	}
+	if depth > 12 {
+		return affSym(v)
+	}
+	switch x := v.(type) {
+	case *ssa.BinOp:
+		switch x.Op {
+		case token.ADD:
+			return symAff(x.X, depth+1).add(symAff(x.Y, depth+1), 1)
+		case token.SUB:
+			return symAff(x.X, depth+1).add(symAff(x.Y, depth+1), -1)
+		case token.MUL:
+			if k, ok := intConst(x.Y); ok {
+				return symAff(x.X, depth+1).scale(k)
+			}
+			if k, ok := intConst(x.X); ok {
+				return symAff(x.Y, depth+1).scale(k)
+			}
+		}
+	case *ssa.Call:
+		if calleeName(&x.Call) == "builtin.len" && len(x.Call.Args) == 1 {
+			if sl, ok := x.Call.Args[0].(*ssa.Slice); ok {
+				if _, isArr := sl.X.Type().Underlying().(*types.Pointer); !isArr {
+					lo := affConst(0)
+					if sl.Low != nil {
+						lo = symAff(sl.Low, depth+1)
+					}
+					if sl.High != nil {
+						return symAff(sl.High, depth+1).add(lo, -1)
+					}
+					// len(X) − a: canonical symbol for len(X) = the first len call on X in the function
+					var canon ssa.Value
+					if refs := sl.X.Referrers(); refs != nil {
+						for _, r := range *refs {
+							if lc, isC := r.(*ssa.Call); isC && calleeName(&lc.Call) == "builtin.len" && lc.Call.Args[0] == sl.X {
+								if canon == nil || lc.Pos() < canon.Pos() {
+									canon = lc
+								}
+							}
+						}
+					}
+					if canon != nil && canon != ssa.Value(x) {
+						return affSym(canon).add(lo, -1)
+					}
+				}
+			}
+			// canonical len symbol: first len call on the same argument
+			arg := x.Call.Args[0]
+			if refs := arg.Referrers(); refs != nil {
+				var canon *ssa.Call
+				for _, r := range *refs {
+					if lc, isC := r.(*ssa.Call); isC && calleeName(&lc.Call) == "builtin.len" && lc.Call.Args[0] == arg {
+						if canon == nil || lc.Pos() < canon.Pos() {
+							canon = lc
+						}
+					}
+				}
+				if canon != nil {
+					return affSym(canon)
+				}
+			}
+		}
+	}
+	return affSym(v)
+}
+
+// normSlice expresses v as base[lo:hi] through any nesting of slice expressions; hiOpen means hi = len(base).
+func normSlice(v ssa.Value, base ssa.Value) (lo, hi Aff, hiOpen, ok bool) {
+	if v == base {
+		return affConst(0), Aff{}, true, true
+	}
+	sl, isSl := v.(*ssa.Slice)
+	if !isSl {
+		return Aff{}, Aff{}, false, false
+	}
+	l0, h0, open0, ok0 := normSlice(sl.X, base)
+	if !ok0 {
+		return Aff{}, Aff{}, false, false
+	}
+	lo = l0
+	if sl.Low != nil {
+		a, okA := exactAff(sl.Low)
+		if !okA {
+			return Aff{}, Aff{}, false, false
+		}
+		lo = l0.add(a, 1)
+	}
+	if sl.High != nil {
+		a, okA := exactAff(sl.High)
+		if !okA {
+			return Aff{}, Aff{}, false, false
+		}
+		return lo, l0.add(a, 1), false, true
+	}
+	return lo, h0, open0, true
 }
